@@ -1057,7 +1057,28 @@ func (g *apiGen) fullUpdate() bson.D {
 	case 8:
 		return one("$push", v)
 	case 9:
-		return one("$push", bson.D{{Key: "$each", Value: bson.A{g.scalar(), g.scalar()}}, {Key: "$slice", Value: int32(r.intn(4) - 1)}})
+		// $each with zero to two elements, every modifier optional, on the drawn
+		// field or on one that is usually missing (the recorded change must then
+		// be the whole new array, also when it is empty)
+		each := bson.A{}
+		for i := r.intn(3); i > 0; i-- {
+			each = append(each, g.scalar())
+		}
+		spec := bson.D{{Key: "$each", Value: each}}
+		if r.chance(1, 2) {
+			spec = append(spec, bson.E{Key: "$slice", Value: int32(r.intn(4) - 1)})
+		}
+		if r.chance(1, 4) {
+			spec = append(spec, bson.E{Key: "$position", Value: int32(r.intn(3) - 1)})
+		}
+		if r.chance(1, 4) {
+			spec = append(spec, bson.E{Key: "$sort", Value: pick(r, []interface{}{int32(1), int32(-1)})})
+		}
+		target := f
+		if r.chance(1, 3) {
+			target = pick(r, []string{"n", "z", "c.w"})
+		}
+		return bson.D{{Key: "$push", Value: bson.D{{Key: target, Value: spec}}}}
 	case 10:
 		return one("$pop", pick(r, []interface{}{int32(1), int32(-1)}))
 	case 11:
